@@ -193,7 +193,8 @@ func (p *Provider) ruleSetsChanged(evt fsnotify.Event) error {
 	switch {
 	case evt.Has(fsnotify.Create) || evt.Has(fsnotify.Write) || evt.Has(fsnotify.Chmod):
 		err = p.ruleSetCreatedOrUpdated(evt.Name)
-	case evt.Has(fsnotify.Remove):
+	case evt.Has(fsnotify.Remove) || evt.Has(fsnotify.Rename):
+		// a renamed or moved file is reported with its old name, which is gone
 		err = p.ruleSetDeleted(evt.Name)
 	}
 
